@@ -353,13 +353,24 @@ func pickSubset(t *rapid.T, n, m int) []int {
 // ---------------------------------------------------------------------------
 // ECDSA plans: inner script + wrapper
 
-func genECDSAPlan(t *rapid.T, sk *skeleton, idx int, pMut int) *plan {
+func genECDSAPlan(t *rapid.T, sk *skeleton, idx int, pMut int, only ...string) *plan {
 	p := &plan{}
 	amount := sk.prevouts[idx].Value
 	in := genInnerECDSA(t, p, sk, idx, pMut)
 	wrappers := []string{"bare", "p2sh", "p2sh", "p2wsh", "p2wsh", "p2sh-p2wsh"}
 	if in.name == "p2pkh" {
 		wrappers = []string{"bare", "p2sh", "p2sh", "p2wpkh", "p2wpkh", "p2sh-p2wpkh", "p2wsh"}
+	}
+	if len(only) > 0 {
+		var w2 []string
+		for _, w := range wrappers {
+			for _, o := range only {
+				if w == o {
+					w2 = append(w2, w)
+				}
+			}
+		}
+		wrappers = w2
 	}
 	w := rapid.SampledFrom(wrappers).Draw(t, "wrapper")
 	p.label = "g3:" + in.name + "/" + w
@@ -1195,16 +1206,83 @@ func genPlan(t *rapid.T, sk *skeleton, idx int, allowLate bool, pMuts []int) *pl
 	}
 }
 
-// genG3Spend builds a transaction whose input idx follows a plan.
-func genG3Spend(t *rapid.T) *spend {
+// genG3Spend builds a transaction whose input idx follows a plan. A share of
+// the cases aims at one verification stage that ordinary mutations reach
+// rarely: mode "final" (an otherwise valid legacy spend that only CLEANSTACK
+// or the unexpected-witness rule can reject), "redeem" (P2SH with heavy
+// signature mutation) and "witprog" (a valid witness spend with one edit at
+// the witness-program level).
+func genG3Spend(t *rapid.T, fs flagSet) *spend {
 	sk := genSkeleton(t, 1)
 	idx := rapid.IntRange(0, len(sk.tx.In)-1).Draw(t, "idx")
-	p := genPlan(t, sk, idx, true, []int{0, 0, 20, 40, 60})
+	mode := rapid.SampledFrom([]string{"normal", "final", "normal", "witprog", "normal", "final", "redeem", "normal", "witprog", "final", "normal"}).Draw(t, "mode")
+	var p *plan
+	switch mode {
+	case "final":
+		p = genECDSAPlan(t, sk, idx, 0, "bare", "p2sh")
+	case "redeem":
+		p = genECDSAPlan(t, sk, idx, 60, "p2sh")
+	case "witprog":
+		if rapid.Bool().Draw(t, "witprogTaproot") {
+			p = genTaprootPlan(t, sk, idx, 0)
+		} else {
+			p = genECDSAPlan(t, sk, idx, 0, "p2wsh", "p2wpkh", "p2sh-p2wsh", "p2sh-p2wpkh")
+		}
+	default:
+		p = genPlan(t, sk, idx, true, []int{0, 0, 20, 40, 60})
+	}
 	sk.prevouts[idx] = p.prevout
 	sk.finalizeOutpoints()
 	p.sign(t, sk.tx, idx, sk.prevouts)
-	stageMutation(t, p, &sk.tx.In[idx])
-	return &spend{tx: sk.tx, idx: idx, prevouts: sk.prevouts, gen: p.label, note: strings.Join(p.notes, "; ")}
+	in := &sk.tx.In[idx]
+	switch mode {
+	case "normal":
+		stageMutation(t, p, in)
+	case "final":
+		if fs.model&ms.Witness != 0 && (fs.model&ms.CleanStack == 0 || rapid.Bool().Draw(t, "finalKind")) {
+			in.Witness = [][]byte{rapid.SampledFrom([][]byte{{}, {1}, {0x30, 0x01}}).Draw(t, "strayWitness3")}
+			p.note("witness-on-non-witness-spend")
+		} else {
+			in.ScriptSig = append([]byte{rapid.SampledFrom([]byte{ms.OP_1, ms.OP_0, ms.OP_16}).Draw(t, "bottomItem2")}, in.ScriptSig...)
+			p.note("extra-item-at-stack-bottom")
+		}
+	case "witprog":
+		pk := append([]byte{}, sk.prevouts[idx].PkScript...)
+		switch rapid.IntRange(0, 5).Draw(t, "witprogEdit") {
+		case 0:
+			pk[len(pk)-1] ^= 1
+			sk.prevouts[idx].PkScript = pk
+			p.note("program-byte-flipped-in-the-output")
+		case 1:
+			in.Witness = nil
+			p.note("witness-removed")
+		case 2:
+			if len(in.ScriptSig) == 0 {
+				in.ScriptSig = []byte{ms.OP_0}
+				p.note("scriptSig-on-native-witness-spend")
+			} else {
+				in.ScriptSig = append([]byte{ms.OP_0}, in.ScriptSig...)
+				p.note("nested-scriptSig-extra-push")
+			}
+		case 3:
+			if n := len(in.Witness); n > 0 && len(in.Witness[n-1]) > 0 {
+				w := cloneItems(in.Witness)
+				w[n-1] = w[n-1][:len(w[n-1])-1]
+				in.Witness = w
+				p.note("last-witness-item-truncated")
+			}
+		case 4:
+			if n := len(in.Witness); n > 0 {
+				w := cloneItems(in.Witness)
+				w[n-1] = append(w[n-1], 0x61)
+				in.Witness = w
+				p.note("last-witness-item-extended")
+			}
+		default:
+			// untouched: the valid baseline
+		}
+	}
+	return &spend{tx: sk.tx, idx: idx, prevouts: sk.prevouts, gen: p.label + "[" + mode + "]", note: strings.Join(p.notes, "; ")}
 }
 
 // stageMutation aims a failure at one verification stage that the
